@@ -114,7 +114,7 @@ class World:
 
     def setup_universe(self, ex):
         """ex: the exact World; the unit universe is computed once there"""
-        self.units, self.classes, self.rootfac, self.dimkey = ex.units, ex.classes, ex.rootfac, ex.dimkey
+        self.units, self.classes, self.rootfac, self.dimkey, self.prefixable = ex.units, ex.classes, ex.rootfac, ex.dimkey, ex.prefixable
 
     def build_universe(self):
         ureg = self.ureg
@@ -134,6 +134,14 @@ class World:
         self.classes = {}
         for n in self.units:
             self.classes.setdefault(self.dimkey[n], []).append(n)
+        # names that may take a prefix: definitions of the files, not prefix+unit names registered on the fly
+        self.prefixable = set()
+        for n in self.units:
+            try:
+                if not n.startswith("delta_") and not any(c[0] for c in ureg.parse_unit_name(n)):
+                    self.prefixable.add(n)
+            except Exception:
+                pass
 
     # exact factor of a container to root units, from the per-name root factors (independent of convert())
     def fac(self, d):
@@ -261,8 +269,27 @@ class Evaluator:
         self.div = None          # first divergence: (key, description)
         self.frames = []
 
+    @staticmethod
+    def guard_pow(l, r):
+        """keep a (possibly defective) implementation from raising huge numbers to huge powers"""
+        b = l._magnitude if is_q(l) else l
+        e = r._magnitude if is_q(r) else r
+        if exact(b) and exact(e):
+            bits = F(b).numerator.bit_length() + F(b).denominator.bit_length()
+            if bits * abs(F(e)) > 12000:
+                raise Skip("power too large")
+
+    @staticmethod
+    def guard_size(v):
+        m = v._magnitude if is_q(v) else v
+        if exact(m) and F(m).numerator.bit_length() + F(m).denominator.bit_length() > 12000:
+            raise Skip("magnitude too large")
+        return v
+
     def apply_bin(self, op, form, l, r):
         sl, sr = snap(l), snap(r)
+        if op == "pow":
+            self.guard_pow(l, r)
         try:
             if form == "plain" or (form == "inpl" and op in ("divmodq", "divmodr")):
                 res = PLAIN[op](l, r)
@@ -280,7 +307,7 @@ class Evaluator:
                     res = res[0]
                 elif op == "divmodr":
                     res = res[1]
-            out = ("ok", res)
+            out = ("ok", self.guard_size(res))
         except Skip:
             raise
         except Exception as e:       # noqa: BLE001 — the class is the observation
@@ -374,16 +401,37 @@ class Evaluator:
         self.compare(t, ls, rs, outs, tol)
         return outs
 
+    @staticmethod
+    def inexact_operand(os_):
+        for o in os_ or ():
+            if o[0] == "ok":
+                m = o[1]._magnitude if is_q(o[1]) else o[1]
+                if isinstance(m, (float, Decimal)) and not is_nan(m):
+                    return True
+        return False
+
     def compare(self, t, ls, rs, outs, tol):
         if self.div is not None:
             return
         for k in range(1, len(outs)):
             if not self.same(outs[0], outs[k], tol):
+                if t[0] == "bin" and t[1] in ("floordiv", "mod", "divmodq", "divmodr") and (self.inexact_operand(ls) or self.inexact_operand(rs)):
+                    # // and % are discontinuous: with a float operand (Fraction ** Quantity goes through float) the
+                    # two evaluations may legitimately fall on different sides; not an exact-arithmetic case
+                    self.div = ("float-discontinuity", "")
+                    return
                 self.div = self.report(t, ls, rs, outs, k)
                 return
 
 
 def describe(o):
+    try:
+        return describe_(o)
+    except ValueError:
+        return "<a number with more than 4300 digits>"
+
+
+def describe_(o):
     if o[0] == "err":
         return o[1]
     v = o[1]
@@ -403,7 +451,7 @@ def run(ck):
                "multiplicative unit of the registry (compound, prefixed, delta_ units; bare numbers 0 / NaN / non-zero); each "
                "tree evaluated by pint, by the model in Coq (both leaf assignments), and with every leaf re-expressed in a "
                "random compatible unit (prefix, other unit of the dimension, extra dimensionless factor: radian percent count "
-               "ppm degree turn); operands snapshotted around every application; ndarray (object dtype, exact) targets for the "
+               "ppm ... — the list is in the evidence); operands snapshotted around every application; ndarray (object dtype, exact) targets for the "
                "in-place twins; ==, <, <=, >, >=; float / Decimal / int magnitudes with tolerance (labelled tests); malformed "
                "stream: mixed dimensions, bare numbers on dimensioned quantities, zero divisors, dimensioned exponents. "
                "non-trivial = distinct (tree shape with operators, forms and leaf units) whose re-expression changes at least one unit")
@@ -466,7 +514,7 @@ def run(ck):
         d = {}
         for _ in range(k):
             n = rng.choice(units)
-            if rng.random() < 0.25 and not n.startswith("delta_"):
+            if rng.random() < 0.25 and n in W.prefixable:
                 n = rng.choice(PREFIXES) + n
             e = rng.choice([1, 1, 1, -1, -1, 2, -2, 3])
             d[n] = d.get(n, F(0)) + e
@@ -478,7 +526,7 @@ def run(ck):
         base = n in W.dimkey
         if r < 0.2:
             return n
-        if r < 0.45 and base and not n.startswith("delta_"):
+        if r < 0.45 and n in W.prefixable:
             return rng.choice(PREFIXES) + n
         try:
             key = W.dimkey[n] if base else frozenset(W.dim({n: F(1)}).items())
@@ -488,7 +536,7 @@ def run(ck):
         if not cl:
             return n
         m = rng.choice(cl)
-        if rng.random() < 0.3 and not m.startswith("delta_"):
+        if rng.random() < 0.3 and m in W.prefixable:
             m = rng.choice(PREFIXES) + m
         return m
 
@@ -733,6 +781,9 @@ def run(ck):
             continue
         for key, desc in ev.frames:
             fail(key, desc, {"kind": "tree", "tree": jsonable_tree(t), "variants": [[jsonable_tree(("leaf", s))[1] for s in v.values()] for v in variants]})
+        if ev.div is not None and ev.div[0] == "float-discontinuity":
+            ck.count("tree:float-discontinuity (skipped)")
+            continue
         changed = any(a != c for a, c in zip(va.values(), vc.values()))
         ck.case(key=("tree", tree_key(t)), nontrivial=changed,
                 sample={"tree": show_tree(t), "re-expressed leaves": [show_spec(s) for s in vc.values()], "result": describe(outs[0])} if len(ck.samples) < 4 else None)
